@@ -40,7 +40,7 @@ ASSUMPTIONS = [
     "token classes are disjoint (a token is not at once a keyword, a variable name, a hedge name and a term name)",
     "resource exhaustion (recursion depth of very long antecedents) is not decided",
 ]
-FLOORS = {"X9": 3, "X8": 6, "PD": 4, "PD2": 4, "LD": 8, "F1": 2, "F-end": 1, "X2": 30, "X4": 6, "O9": 4}
+FLOORS = {"X9": 3, "X8": 6, "PD": 4, "PD2": 4, "LD": 8, "F1": 2, "X2": 30, "X4": 6, "O9": 4}
 
 ALLOWED = {"SyntaxError", "ValueError", "KeyError", "LookupError"}
 
@@ -391,6 +391,98 @@ def consequent_automaton(check: Check) -> None:
         return None
 
     compare(check, "F", "Consequent.load", fn, ex, "V", step, lambda s, d, x: s == "AW", list(classes), {"SyntaxError"})
+
+
+def rule_parse_semantics(check: Check, rule: str = "F1") -> bool:
+    """F1 for `Rule.parse`, by interpretation (sa/objexec.py): the method is run on *every* sequence of up to 5 (quick) / 6 (thorough) tokens drawn
+    from {`if`, `then`, `with`, a number, a word} and compared with the grammar automaton of the statement (Appendix A.3): which texts are accepted,
+    with which antecedent, consequent and weight; which are rejected, and that the rejection is a SyntaxError (a ValueError for a weight that is
+    not a number) - never an internal error, never an acceptance of a rule with a missing keyword, part or weight, or a trailing token.
+    -> False when the interpreter cannot follow the method (the extracted state machine then decides)."""
+    import itertools
+
+    from ..absexec import Internal, MObj, Raised, Unknown
+    from ..objexec import ObjExec
+    from .roundtrip_sem import E0
+
+    p = check.program
+    fn = p.func("Rule.parse")
+    check.analysed(fn)
+    alphabet = ["if", "then", "with", "0.25", "x"]
+    depth = 6 if check.tier == "thorough" else 5
+
+    def spec(tokens: tuple) -> Any:
+        state, ant, con, weight = "BEGIN", [], [], 1.0
+        for t in tokens:
+            if state == "BEGIN":
+                if t != "if":
+                    return "SyntaxError"
+                state = "IF"
+            elif state == "IF":
+                if t == "then":
+                    state = "THEN"
+                else:
+                    ant.append(t)
+            elif state == "THEN":
+                if t == "with":
+                    state = "WITH"
+                else:
+                    con.append(t)
+            elif state == "WITH":
+                try:
+                    weight = float(t)
+                except ValueError:
+                    return "ValueError"
+                state = "END"
+            else:
+                return "SyntaxError"
+        if state not in ("THEN", "END") or not ant or not con:
+            return "SyntaxError"
+        return (" ".join(ant), " ".join(con), weight)
+
+    bad: dict[str, str] = {}
+    n = 0
+    try:
+        ex = ObjExec(p, "Rule.parse")
+        ex.globals.update({"nan": float("nan"), "inf": float("inf")})
+        for k in range(0, depth + 1):
+            for tokens in itertools.product(alphabet, repeat=k):
+                n += 1
+                ex.steps = 0
+                me = MObj("Rule", {"antecedent": MObj("<part>", {"text": "<old antecedent>"}), "consequent": MObj("<part>", {"text": "<old consequent>"}), "weight": 0.5,
+                                   "enabled": True, "__bases__": ()})
+                text = " ".join(tokens)
+                try:
+                    ex.invoke(fn, [me, text], {}, E0)
+                    got: Any = (me.fields["antecedent"].fields["text"], me.fields["consequent"].fields["text"], me.fields["weight"])
+                except Raised as r_:
+                    got = r_.cls
+                except Internal as i_:
+                    got = "!" + i_.cls
+                want = spec(tokens)
+                if got == want:
+                    continue
+                what = f"`{text}`" if text else "the empty text"
+                if isinstance(got, str) and got.startswith("!"):
+                    bad.setdefault("no-internal-error", f"parsing {what} ends with an internal {got[1:]}")
+                elif isinstance(want, str) and not isinstance(got, str):
+                    bad.setdefault("rejects", f"{what} is accepted (antecedent `{got[0]}`, consequent `{got[1]}`, weight {got[2]}); the grammar rejects it with {want}")
+                elif isinstance(want, str):
+                    bad.setdefault("rejects", f"{what} is rejected with {got}, specified {want}")
+                elif isinstance(got, str):
+                    bad.setdefault("accepts", f"{what} is rejected with {got}; the grammar accepts it (antecedent `{want[0]}`, consequent `{want[1]}`, weight {want[2]})")
+                else:
+                    bad.setdefault("accepts", f"{what} is read as antecedent `{got[0]}`, consequent `{got[1]}`, weight {got[2]}; specified `{want[0]}`, `{want[1]}`, {want[2]}")
+    except Unknown as u:
+        check.notes.append(f"{rule}: Rule.parse is outside the interpreter's model ({u}); decided on the extracted state machine")
+        return False
+    for aspect, good in (("accepts", "every text of the rule grammar is read with its antecedent, consequent and weight"),
+                         ("rejects", "every other text is rejected with SyntaxError (ValueError for a weight that is not a number)"),
+                         ("no-internal-error", "no text ends in an internal error")):
+        hit = bad.get(aspect)
+        check.require(hit is None, rule, f"Rule.parse/{aspect}", f"{good} ({n} token sequences of length <= {depth})" if hit is None else hit, loc(fn), {"sequences": n},
+                      exhaustive=True, cases=n)
+    return True
 
 
 def rule_automaton(check: Check) -> None:
@@ -876,7 +968,8 @@ def load_atomicity(check: Check, only: str | None = None) -> None:
 
 
 def run(check: Check) -> None:
-    rule_automaton(check)
+    if not rule_parse_semantics(check):
+        rule_automaton(check)  # fallback: the extracted state machine, when the interpreter cannot follow Rule.parse
     loaders.loader(check, "Antecedent.load")
     loaders.loader(check, "Consequent.load")
     exception_discipline(check)
